@@ -13,8 +13,8 @@ PROPS = {
     'C06': ['contracts.m2_client', 'contracts.m2_getmsg', 'contracts.defragmenter', 'contracts.m2_server13'],
     'C13': ['contracts.m2_client', 'contracts.m2_posthandshake', 'contracts.m2_server', 'contracts.small_extras', 'contracts.m2_binders', 'contracts.m2_server13'],
     'C09': ['contracts.kdf', 'contracts.ciphers', 'contracts.m2_tls13_states', 'contracts.m2_exporter'],
-    'C15': ['contracts.codec', 'contracts.messages_simple'],
-    'C08': ['contracts.codec', 'contracts.messages_simple', 'contracts.m2_recordlayer', 'contracts.m2_getmsg', 'contracts.m2_posthandshake', 'contracts.m2_recordio', 'contracts.m2_server', 'contracts.transport', 'contracts.m2_parse_safety', 'contracts.m2_decompress'],
+    'C15': ['contracts.codec', 'contracts.messages_simple', 'contracts.extensions_codec'],
+    'C08': ['contracts.codec', 'contracts.messages_simple', 'contracts.m2_recordlayer', 'contracts.m2_getmsg', 'contracts.m2_posthandshake', 'contracts.m2_recordio', 'contracts.m2_server', 'contracts.transport', 'contracts.m2_parse_safety', 'contracts.m2_decompress', 'contracts.m2_ext_none', 'contracts.extensions_codec'],
     'C14': ['contracts.m2_recordlayer', 'contracts.m2_getmsg', 'contracts.defragmenter', 'contracts.transport', 'contracts.m2_asyncsm'],
     'C16': ['contracts.m2_recordlayer', 'contracts.m2_getmsg', 'contracts.m2_posthandshake', 'contracts.sendmsg', 'contracts.m2_tls13_states'],
     'C17': ['contracts.m2_recordlayer', 'contracts.m2_getmsg', 'contracts.m2_posthandshake', 'contracts.transport'],
